@@ -64,6 +64,9 @@ def events (d : D) (toks : List String) : D × List Ev :=
       if (d.kinds.get? m) = some "spin" then (d, [.call t .other]) else (d, [.call t (.cvwait c m' (parseTo to))])
     | "notify", [c] => let (d, c) := intern d c; (d, [.call t (.notify c false)])
     | "notifyall", [c] => let (d, c) := intern d c; (d, [.call t (.notify c true)])
+    | "rlock", [rw, _] => let (d, rw) := intern d rw; (d, [.call t (.rwlock rw false)])
+    | "wlock", [rw, _] => let (d, rw) := intern d rw; (d, [.call t (.rwlock rw true)])
+    | "rwunlock", [rw] => let (d, rw) := intern d rw; (d, [.call t .other, .callRwUnlock t rw])
     | "shutdown", [u] => let (d, u) := intern d u; (d, [.call t .other, .setShutdown u])
     | _, _ => (d, [.call t .other])
   | "ret" :: t :: op :: r :: e :: _ =>
@@ -77,6 +80,8 @@ def events (d : D) (toks : List String) : D × List Ev :=
     | "wait", .semwait s _ _ _ => (d, [.retSemWait t s (toInt r) (toInt e)])
     | "waiti", .semwait s _ _ _ => (d, [.retSemWait t s (toInt r) (toInt e)])
     | "cvwait", .cvwait c m _ => (d, [.retCvWait t c m (toInt r) (toInt e)])
+    | "rlock", .rwlock rw w => (d, [.retRwLock t rw w (toInt r)])
+    | "wlock", .rwlock rw w => (d, [.retRwLock t rw w (toInt r)])
     | "notify", .notify c a => (d, [.retNotify t c (toInt r) a])
     | "notifyall", .notify c a => (d, [.retNotify t c (toInt r) a])
     | _, _ => (d, [])
@@ -92,11 +97,13 @@ def step (d : D) (toks : List String) : D × String :=
   | ["endprog"] => ({}, "ok")
   | ["obj", kind, name] | ["obj", kind, name, _] | ["obj", kind, name, _, _] =>
     let (d, i) := intern d name
+    let d := if kind = "rw" then (intern (intern d (name ++ ".cv")).1 (name ++ ".mtx")).1 else d
     let d := { d with kinds := d.kinds.insert name kind }
     let ev : Option Ev := match kind, toks with
       | "mutex", _ => some (.mutexInit i)
       | "rmutex", _ => some (.mutexInit i)
       | "sem", [_, _, _, c, ino] => some (.semInit i (c.toNat?.getD 0) (decide (ino = "1")))
+      | "rw", _ => some (.rwInit i ((intern d (name ++ ".cv")).2) ((intern d (name ++ ".mtx")).2))
       | _, _ => none
     match ev with
     | none => (d, "ok")
@@ -131,6 +138,10 @@ def step (d : D) (toks : List String) : D × String :=
         let (d3, si) := intern d2 sm
         let want := s!"count={(s.sem si).count}"
         (d3, if c = want then "ok" else s!"reject real {sm} {c} but model {want}")
+      | ["qs", "rw", rw, st] | ["fs", "rw", rw, st] =>
+        let (d3, ri) := intern d2 rw
+        let want := s!"state={rwStateOf (s.rw ri)}"
+        (d3, if st = want then "ok" else s!"reject real {rw} {st} but model {want}")
       | _ => (d2, "ok")
 
 end Driver.Sync
